@@ -426,6 +426,58 @@ pub fn run(tier: Tier) -> ! {
             }
         });
     });
+    // (2b) nesting chains around the depth limit (skip/len/split_off keep their own depth count)
+    let mut chains: Vec<Vec<u8>> = Vec::new();
+    {
+        use crate::gen::{chain, Step, STEPS};
+        use refcodec::RefValue;
+        let bottoms = [
+            RefValue::None,
+            RefValue::Vec(vec![]),
+            RefValue::Set(refcodec::KeyType::U16, vec![refcodec::RefKey::U16(300)]),
+            RefValue::Struct(vec![(300, RefValue::U8(1))]),
+        ];
+        for s in STEPS {
+            for d in 27..=33usize {
+                for b in &bottoms {
+                    let v = chain(&vec![s; d], b.clone()).normalize();
+                    for m in [0u64, u64::MAX, 0x5555_5555_5555_5555] {
+                        chains.push(encode_mask(&v, m));
+                    }
+                }
+            }
+        }
+        for rot in 0..8usize {
+            for d in 28..=33usize {
+                let steps: Vec<Step> = (0..d).map(|i| STEPS[(i * 3 + rot) % 8]).collect();
+                let v = chain(&steps, RefValue::None).normalize();
+                chains.push(encode_mask(&v, u64::MAX));
+                chains.push(encode_mask(&v, 0xaaaa_aaaa_aaaa_aaaa));
+            }
+        }
+        chains.sort();
+        chains.dedup();
+    }
+    let n_chains = chains.len();
+    chains.par_iter().for_each(|e| {
+        check_bytes(&cx, e);
+        // wrapped one level deeper in each carrier the opaque-capture paths use
+        for prefix in [&[43u8, 1][..], &[17, 1][..], &[65, 1, 7][..], &[40, 9][..], &[1][..]] {
+            let mut w = prefix.to_vec();
+            w.extend_from_slice(e);
+            if prefix[0] == 43 || prefix[0] == 65 {
+                w.push(0);
+            }
+            check_bytes(&cx, &w);
+        }
+        if thorough {
+            single_edits(e, &[0, 1, 17, 43], |m| {
+                if !m.is_empty() {
+                    check_bytes(&cx, m)
+                }
+            });
+        }
+    });
     let n_after_single = cx.evals.load(Ordering::Relaxed);
     let mut n_pair_encodings = 0usize;
     if thorough {
@@ -456,6 +508,7 @@ pub fn run(tier: Tier) -> ! {
         "all_strings_len_4_alphabet80": n_strings - n_full - if thorough { (a80.len() as u64).pow(5) } else { 0 },
         "all_strings_len_5_alphabet80": if thorough { (a80.len() as u64).pow(5) } else { 0 },
         "corpus_encodings": n_corpus,
+        "nesting_chain_encodings_depth_27_to_33": n_chains,
         "corpus_plus_single_edits": n_after_single - n_strings,
         "pair_edit_encodings": n_pair_encodings,
         "pair_edits": evals - n_after_single,
